@@ -27,11 +27,59 @@ def claim_term(env, c):
     raise E.Unsupported("bad claim %r" % (c,))
 
 
+def claim_holds(env, c):
+    if type(c) is tuple and c[0] == "eq":
+        return c[1] == c[2]
+    if type(c) is tuple and c[0] == "cong":
+        return (c[1] - c[2]) % env.P == 0
+    return bool(c)
+
+
+def concrete_fallback(job, env, entry, why):
+    from symtrace.concrete import run_concrete, Kit
+    names = list(entry.ins)
+    P = env.P or (1 << 61) - 1
+    cands = [lambda i: 1001 + 7 * i, lambda i: i, lambda i: 1, lambda i: -1 - i, lambda i: (1 << 20) + 3 * i, lambda i: P - 1 - i,
+             lambda i: 0, lambda i: 2 + i]
+    tried = 0
+    for f in cands:
+        inputs = {nm: f(i) for i, nm in enumerate(names)}
+        if entry.assume is not None:
+            try:
+                if not all(bool(c) for c in entry.assume(Kit(env, dict(inputs), job.cfg.get("n", 4), job.cfg.get("r", 2)))):
+                    continue
+            except Exception:
+                continue
+        out = run_concrete(env, entry, job.cfg, inputs)
+        tried += 1
+        if out["outcome"] != "ok":
+            continue
+        for label, c in out["result"]:
+            if not claim_holds(env, c):
+                job.obligation("sat")
+                job.finding("obs", "claim '%s' fails at the evaluation point %s" % (label, inputs),
+                            dict(kind="obs", inputs=inputs, label=label))
+                break
+        else:
+            job.obligation("unsat")
+        if not names:
+            break
+    job.inconclusive("not encodable (%s): claims evaluated at %d fixed points only" % (why[:120], tried))
+    return job.done()
+
+
 def run_obs_job(pid, env, spec, entry, catmod, expect_raise=None, spot_points=True):
     job = Job(pid, env, spec, entry, catalogue_module=catmod)
     job.cfg["want_ref"] = False
     twin_done = False
-    for t in job.explore(compare_result=False):
+    try:
+        traces = list(job.explore(compare_result=False))
+    except E.Unsupported as ex:
+        # the code under test left the fragment the engine encodes (only seen on changed code): nothing is decided
+        # symbolically; the claims are still evaluated on plain integers at fixed points, where a failure is a replayable
+        # violation, and the job is reported INCONCLUSIVE otherwise
+        return concrete_fallback(job, env, entry, "%s" % (ex,))
+    for t in traces:
         pi = t.extra["idx"]
         facts = t.path.facts()
         if not t.path.ok:
